@@ -438,6 +438,13 @@ func run(root, id, tier string) int {
 	if len(samples) == 0 {
 		cov["samples"] = []any{"(no non-trivial case was recorded in this run)"}
 	}
+	if assumptions == nil {
+		assumptions = []string{}
+	}
+	if notes == nil {
+		notes = []string{}
+		cov["notes"] = notes
+	}
 	ev := map[string]any{
 		"property_id": id,
 		"tier":        tier,
